@@ -239,22 +239,8 @@ class PlainSub(DBase1):
         (F("a", "req"), F("b", "opt", sample=2), F("c", "opt", sample=3, default=0)),
         "undecorated plain subclass of a decorated dataclass",
     ),
-    Shape(
-        "DataclassSub",
-        """
-@with_fields_set
-@dataclass
-class DBase2:
-    a: int
-    b: Optional[int] = None
-
-@dataclass
-class DataclassSub(DBase2):
-    c: int = 0
-""",
-        (F("a", "req"), F("b", "opt", sample=2), F("c", "opt", sample=3, default=0)),
-        "undecorated @dataclass subclass (adding a field) of a decorated dataclass",
-    ),
+    # an undecorated @dataclass subclass (adding a field) of a decorated dataclass is NOT in the pool: it is not
+    # "a class decorated with with_fields_set" (premise of C15); its regenerated __init__ marks every field as set
     Shape(
         "BothDecorated",
         """
